@@ -94,9 +94,19 @@ def classify_uses(t, bufs, out, ctx):
 
 
 def err_only_guard(an, d):
-    """d is a boolean switch discriminant: is one of its outcomes followed by Err returns only?"""
+    """d is a switch discriminant (a boolean, or the variant of an Option/Result): is one of its outcomes followed by Err returns only?"""
     leaves = an.ret_leaves()
     if leaves is None:
+        return False
+    if d.op == "discr":
+        for vs in (["None", "Some"], ["Ok", "Err"], ["Continue", "Break"]):
+            base, names = an.norm_var(d.args[0], vs)
+            if base is None:
+                continue
+            for nme in names:
+                sel = [t for t, st in leaves if ("var", base, nme) in st.facts]
+                if sel and all(t.op == "agg" and t.args[3] == "Err" for t in sel):
+                    return True
         return False
     for truth in ("true", "false"):
         sel = [t for t, st in leaves if (truth, d) in st.facts]
@@ -105,7 +115,7 @@ def err_only_guard(an, d):
     return False
 
 
-from ..streamrules import failure_propagated
+from ..streamrules import failure_propagated, io_home
 
 
 def run(ctx, rep):
@@ -325,6 +335,11 @@ def run(ctx, rep):
                     continue
                 if cs.declared_norm in ("ops::Try::branch", "ops::FromResidual::from_residual"):
                     continue      # `?` plumbing: the switch that follows is judged above
+                if cs.result.op != "fresh" and cs.callee.get("resolved_crate") != F["crate"]:
+                    continue      # a pure core function the engine follows as a term (checked_sub, then_some, ok_or ...): its uses are judged where they branch / return
+                lf_ = prog.local_fn(cs.callee)
+                if lf_ is not None and lf_["qual"] in io_home(F):
+                    continue      # the private fetch helper of load_bytes: part of the same bounded-read mechanism (judged by the I/O protocol rule)
                 for a in cs.arg_values():
                     if mentions(a) and "fmt::" not in cs.declared_norm and not (a.op == "refval" and not mentions(a.args[0]) ):
                         # passing &self (whole reader) to its own methods is fine; a computed value is not
